@@ -197,7 +197,9 @@ Mine(s, a) == { c \in 1..Len(s.act) : /\ s.act[c].st \in {"wait", "run"}
                                           \/ s.act[c].dst = a /\ s.act[c].rp }
 CancelAct(P, s, c) ==
   LET k == s.act[c] IN
-  IF k.st = "wait"
+  IF P.gran = "mc" /\ k.kind = "comm" THEN s    \* under the model checker a started communication is RUNNING even when
+                                                \* unmatched, and CommImpl::cancel has no model action to cancel: it stays
+  ELSE IF k.st = "wait"
   THEN IF k.kind = "comm" THEN [s EXCEPT !.act[c].st = "canceled", !.mbq[k.mb] = RemoveFirst(@, c)]
        ELSE [s EXCEPT !.act[c].st = "canceled", !.mqq[k.mb] = RemoveFirst(@, c)]
   ELSE IF k.kind = "comm" THEN FailWaiters([s EXCEPT !.act[c].st = "failed"], Waiters(P, s, c), "network_failure")
@@ -412,7 +414,7 @@ TimerDates(P, s) == { s.tmr[a] : a \in { b \in Actors(P) : s.tmr[b] >= 0 } }
                     \cup { s.kt[a] : a \in { b \in Actors(P) : s.kt[b] >= 0 /\ Alive(s, b) } }
                     \cup { s.act[c].fin : c \in { x \in Running(s) : s.act[x].fin >= 0 } }
 FreeRunning(s) == { c \in Running(s) : s.act[c].fin < 0 }        \* running activities whose completion date is free
-CanComplete(s, c) == c \in Running(s) /\ (s.act[c].fin < 0 \/ s.act[c].fin <= s.now)
+CanComplete(s, c) == c \in Running(s) /\ (s.act[c].fin < 0 \/ s.act[c].fin <= s.now)   \* (run granularity only)
 MinDate(S) == CHOOSE d \in S : \A e \in S : d <= e
 Due(s, a)  == s.tmr[a] >= 0 /\ s.tmr[a] <= s.now
 
@@ -453,7 +455,8 @@ Ret(P, s, a) ==
   IF npc > NOps(P, a) THEN Terminate(P, n, a, "done") ELSE n
 
 \* EngineImpl::run reports a deadlock when nothing can happen any more and some actor is not finished
-Terminal(P, s)   == ~SomeReady(P, s) /\ TimerDates(P, s) = {} /\ Running(s) = {} /\ ~OnlyDaemons(P, s)
+Terminal(P, s)   == IF P.gran = "mc" THEN ~SomeReady(P, s)
+                    ELSE ~SomeReady(P, s) /\ TimerDates(P, s) = {} /\ Running(s) = {} /\ ~OnlyDaemons(P, s)
 Deadlocked(P, s) == ~s.aborted /\ Terminal(P, s) /\ \E a \in Actors(P) : s.ph[a] \notin {"done", "dead", "unborn"}
 AllDone(P, s)    == \A a \in Actors(P) : s.ph[a] \in {"done", "dead", "unborn"}
 
@@ -472,18 +475,18 @@ HeldCount(P, s, a, m, k) ==    \* over operations 1..k of a (all completed)
 \* the n-th unlock, no acquisition reported to a non-owner.  Stated for actors between two operations.
 MutexOwnership(P, s) ==
   \A m \in Mutexes(P) : \A a \in Actors(P) :
-     s.ph[a] \in {"run", "done"} =>
+     (s.ph[a] \in {"run", "done"} /\ s.sub[a] = 1) =>          \* between two operations
        LET h == HeldCount(P, s, a, m, Len(s.obs[a])) IN
        /\ h >= 0
        /\ (h > 0 => s.own[m] = a /\ s.dep[m] = h)
        /\ (h = 0 => s.own[m] # a)
 MutexExclusion(P, s) ==
   \A m \in Mutexes(P) :
-     /\ Cardinality({ a \in Actors(P) : s.ph[a] \in {"run", "done"} /\ HeldCount(P, s, a, m, Len(s.obs[a])) > 0 }) <= 1
+     /\ Cardinality({ a \in Actors(P) : s.ph[a] \in {"run", "done"} /\ s.sub[a] = 1 /\ HeldCount(P, s, a, m, Len(s.obs[a])) > 0 }) <= 1
      /\ (s.own[m] = 0) = (s.dep[m] = 0)
      /\ (~P.rec[m] => s.dep[m] <= 1)
      /\ (s.own[m] = 0 => s.mq[m] = <<>>)                 \* nobody waits for a free mutex (no lost hand-off)
-     /\ \A i \in 1..Len(s.mq[m]) : s.ph[s.mq[m][i]] = "blocked" /\ s.blk[s.mq[m][i]].kind = "mutex"
+     /\ (P.gran # "mc" => \A i \in 1..Len(s.mq[m]) : s.ph[s.mq[m][i]] = "blocked" /\ s.blk[s.mq[m][i]].kind = "mutex")
 
 \* C05: token conservation; the capacity is the difference when nobody waits; nobody waits while tokens are free
 SemConservation(P, s) ==
@@ -492,7 +495,7 @@ SemConservation(P, s) ==
      /\ s.val[x] = P.cap[x] + s.nrel[x] - s.ngr[x]
      /\ s.ngr[x] <= P.cap[x] + s.nrel[x]
      /\ (s.val[x] > 0 => s.sq[x] = <<>>)
-     /\ \A i \in 1..Len(s.sq[x]) : s.ph[s.sq[x][i]] = "blocked" /\ s.blk[s.sq[x][i]].kind = "sem"
+     /\ (P.gran # "mc" => \A i \in 1..Len(s.sq[x]) : s.ph[s.sq[x][i]] = "blocked" /\ s.blk[s.sq[x][i]].kind = "sem")
 
 \* C06: a waiter is in exactly one place: on the condition, or queued on / owning its mutex; it never owns the mutex
 \* while still waiting on the condition
@@ -502,7 +505,7 @@ CvConsistency(P, s) ==
 
 \* C07: a barrier never holds a complete group
 BarrierGroups(P, s) ==
-  \A b \in Bars(P) : Len(s.bq[b]) < P.bar[b] /\ \A i \in 1..Len(s.bq[b]) : s.ph[s.bq[b][i]] = "blocked"
+  \A b \in Bars(P) : Len(s.bq[b]) < P.bar[b] /\ (P.gran # "mc" => \A i \in 1..Len(s.bq[b]) : s.ph[s.bq[b][i]] = "blocked")
 
 \* every blocked actor is blocked on something that exists, answered actors carry a result
 PhaseConsistency(P, s) ==
